@@ -1604,15 +1604,30 @@ func (e *Engine) deleteSeriesRange(seriesKeys [][]byte, min, max int64) error {
 		overlapsTimeRangeMinMax = true
 	}
 
-	if !overlapsTimeRangeMinMax {
-		return nil
-	}
-
 	// Ensure keys are sorted since lower layers require them to be.
 	if !bytesutil.IsSorted(seriesKeys) {
 		bytesutil.Sort(seriesKeys)
 	}
 
+	// If nothing in this shard lies in the time range there is nothing to tombstone and
+	// nothing to take out of the cache and the WAL. The index is reconciled all the same:
+	// a series the index lists although the shard holds no data of it (a write rejected
+	// after its series had been created leaves one behind) could otherwise never be
+	// dropped from a shard that is empty in the range.
+	var deleteKeys [][]byte
+	if overlapsTimeRangeMinMax {
+		var err error
+		if deleteKeys, err = e.deleteSeriesRangeData(seriesKeys, min, max); err != nil {
+			return err
+		}
+	}
+
+	return e.deleteSeriesRangeIndex(seriesKeys, deleteKeys)
+}
+
+// deleteSeriesRangeData removes the values of the (sorted) series in the time range from
+// the TSM files, the cache and the WAL. It returns the sorted cache keys of the series.
+func (e *Engine) deleteSeriesRangeData(seriesKeys [][]byte, min, max int64) ([][]byte, error) {
 	// Run the delete on each TSM file in parallel
 	if err := e.FileStore.Apply(func(r TSMFile) error {
 		// See if this TSM file contains the keys and time range
@@ -1652,7 +1667,7 @@ func (e *Engine) deleteSeriesRange(seriesKeys [][]byte, min, max int64) error {
 
 		return batch.Commit()
 	}); err != nil {
-		return err
+		return nil, err
 	}
 
 	verifPoint("delete.tombstoned", e.path)
@@ -1684,11 +1699,17 @@ func (e *Engine) deleteSeriesRange(seriesKeys [][]byte, min, max int64) error {
 	// delete from the WAL
 	if e.WALEnabled {
 		if _, err := e.WAL.DeleteRange(deleteKeys, min, max); err != nil {
-			return err
+			return nil, err
 		}
 	}
 	verifPoint("delete.wal", e.path)
 
+	return deleteKeys, nil
+}
+
+// deleteSeriesRangeIndex drops from the index those of the (sorted) series that no longer
+// hold any data in the shard. deleteKeys are the sorted cache keys of the series.
+func (e *Engine) deleteSeriesRangeIndex(seriesKeys, deleteKeys [][]byte) error {
 	// The series are deleted on disk, but the index may still say they exist.
 	// Depending on the the min,max time passed in, the series may or not actually
 	// exists now.  To reconcile the index, we walk the series keys that still exists
